@@ -13,6 +13,7 @@ FINDERS = {
     "C19": [("chunk_witness", ["c19"])],
     "C03": [("chunk_witness", ["c06"]), ("chunk_witness", ["c01"])],
     "C16": [("c16_interleave", [])],
+    "C18": [("chunk_witness", ["c07"]), ("chunk_witness", ["c08"])],
     "C05": [("hs_witness", ["c05"])],
     "C11": [("hs_witness", ["c11"])],
 }
